@@ -132,29 +132,50 @@ Proof.
   rewrite map_nth in H. rewrite (nth_error_nth _ _ 0 Hi) in H. unfold all_levels in H. apply in_seq in H. lia.
 Qed.
 
+Lemma src_level_lt tc cp j t g : tc <= C -> comp_ok fb tc cp -> t < tc -> nth_error (f0_ubs fb) j = Some g ->
+  src_level fb tc (perm_of fb tc (fst (fst cp))) (snd (fst cp)) j t < nlevels fb g.
+Proof.
+  intros Hle Hok Ht Hj. pose proof (src_at_spec fb HF Hq tc cp t Hle Hok Ht) as Hs.
+  destruct cp as [[c0 c1] c2]. cbn [fst snd]. destruct Hs as [_ Hs].
+  destruct (f0_src_shape fb HF _ Hs) as (ls & E & Hl & Hall).
+  unfold src_level. rewrite E. rewrite (nth_error_nth _ _ 0 Hj).
+  rewrite (alookup_combine (f0_ubs fb) ls j g (f0_ubs_nodup fb HF) Hl Hj).
+  assert (Hjl : j < length (f0_ubs fb)) by (apply nth_error_Some; congruence).
+  pose proof (Forall2_nth _ _ _ 0 0 j Hall Hjl) as H. cbv beta in H. rewrite (nth_error_nth _ _ 0 Hj) in H.
+  rewrite nth_error_nth_ok with (d := 0) by lia. exact H.
+Qed.
+
+(** every cell of a round carries a level of its factor; outside the source factors an admitted one *)
 Lemma round_row_cells tc cp g : tc <= C -> comp_ok fb tc cp -> In g (fl_act fb) ->
-  Forall (fun cell => exists l, cell = Some l /\ l < nlevels fb g /\ ~ In (FExclude g l) (fl_constraints fb)) (round_row fb tc cp g).
+  Forall (fun cell => exists l, cell = Some l /\ l < nlevels fb g /\
+                                (~ In g (f0_ubs fb) -> ~ In (FExclude g l) (fl_constraints fb))) (round_row fb tc cp g).
 Proof.
   intros Hle Hok Hg. apply (K_In fb HF Hq) in Hg. apply in_app_iff in Hg.
   destruct cp as [[c0 c1] c2]. pose proof Hok as (Hc0 & Hdef & _ & Hc2).
   destruct (perm_of_spec fb HF Hq tc c0 Hle Hc0 Hdef) as (_ & Hpl & Hpb & _).
-  destruct Hg as [Hg | Hg].
+  destruct Hg as [Hg | Hg]; [|apply in_app_iff in Hg; destruct Hg as [Hg | Hg]].
   - apply In_nth_error in Hg. destruct Hg as [i Hi].
     rewrite (round_row_crossed fb HF Hq tc (c0, c1, c2) i g Hle Hok Hi). cbn [fst].
     apply Forall_forall. intros cell Hcell. apply in_map_iff in Hcell. destruct Hcell as [t [E Ht]].
     apply in_seq in Ht. exists (crossed_level fb (perm_of fb tc c0) i t). split; [symmetry; exact E|].
     pose proof (Forall_nth' _ _ t 0%Z Hpb ltac:(lia)) as H. cbv beta in H.
     split; [apply crossed_level_lt; [exact Hi | lia]|].
-    intros Hex. unfold crossed_level in Hex.
+    intros _ Hex. unfold crossed_level in Hex.
     set (combo := nth (Z.to_nat (nth t (perm_of fb tc c0) 0%Z)) prod []) in *.
     assert (Hin : In combo prod) by (apply nth_In; fold q; lia).
-    apply (f0_cprod_spec fb HF) in Hin. destruct Hin as [Hp Hne].
+    pose proof (f0_cprod_not_excluded fb HF combo Hin) as Hne.
+    apply (f0_cprod_in_prod fb HF) in Hin. rename Hin into Hp.
     assert (Et : is_excluded_combination fb (combine c combo) = true).
     { apply (f0_excluded_spec fb HF). exists g, (nth i combo 0). split; [exact Hex|].
       pose proof (product_length_elem _ _ Hp) as Hl. rewrite map_length in Hl.
       rewrite (alookup_combine c combo i g (f0_nodup fb (f0_unpack fb HF)) Hl Hi).
       apply nth_error_nth'. rewrite Hl. apply nth_error_Some. congruence. }
     congruence.
+  - pose proof Hg as Hgs. apply In_nth_error in Hg. destruct Hg as [j Hj].
+    rewrite (round_row_src fb HF Hq tc (c0, c1, c2) j g Hle Hok Hj). cbn [fst snd].
+    apply Forall_forall. intros cell Hcell. apply in_map_iff in Hcell. destruct Hcell as [t [E Ht]].
+    apply in_seq in Ht. exists (src_level fb tc (perm_of fb tc c0) c1 j t). split; [symmetry; exact E|].
+    split; [apply (src_level_lt tc (c0, c1, c2) j t g Hle Hok ltac:(lia) Hj) | intros Hn; contradiction].
   - apply In_nth_error in Hg. destruct Hg as [j Hj].
     rewrite (round_row_ind fb HF Hq tc (c0, c1, c2) j g Hle Hok Hj). cbn [snd].
     apply Forall_forall. intros cell Hcell. apply in_map_iff in Hcell. destruct Hcell as [t [E Ht]].
@@ -167,12 +188,13 @@ Proof.
     pose proof (Forall_nth' _ _ t 0%Z Hcd ltac:(lia)) as H. cbv beta in H.
     unfold lv_of. assert (Hin : In (nth (Z.to_nat (nth t (combo_of tc (length (f0_L fb g)) (nth j c2 0%Z)) 0%Z)) (f0_L fb g) 0) (f0_L fb g))
       by (apply nth_In; lia).
-    apply (f0_L_spec fb HF) in Hin. exact Hin.
+    apply (f0_L_spec fb HF) in Hin. split; [apply Hin | intros _; apply Hin].
 Qed.
 
 
 Lemma decoded_row_cells k g : key_ok fb k -> In g (fl_act fb) ->
-  Forall (fun cell => exists l, cell = Some l /\ l < nlevels fb g /\ ~ In (FExclude g l) (fl_constraints fb)) (decoded_row fb k g).
+  Forall (fun cell => exists l, cell = Some l /\ l < nlevels fb g /\
+                                (~ In g (f0_ubs fb) -> ~ In (FExclude g l) (fl_constraints fb))) (decoded_row fb k g).
 Proof.
   intros Hk Hg. rewrite decoded_row_rounds. apply Forall_flat_map. intros rc Hrc.
   destruct (all_rounds_ok k Hk rc Hrc) as (Hle & _ & Hok). apply round_row_cells; assumption.
@@ -186,12 +208,12 @@ Proof.
   - apply IH. intros cl Hc. apply H. right. exact Hc.
 Qed.
 
-Lemma decoded_row_not_excluded k g l : key_ok fb k -> In g (fl_act fb) -> In (FExclude g l) (fl_constraints fb) ->
-  count_level l (decoded_row fb k g) = 0.
+Lemma decoded_row_not_excluded k g l : key_ok fb k -> In g (fl_act fb) -> ~ In g (f0_ubs fb) ->
+  In (FExclude g l) (fl_constraints fb) -> count_level l (decoded_row fb k g) = 0.
 Proof.
-  intros Hk Hg Hex. apply count_level_none. intros cell Hc E.
+  intros Hk Hg Hns Hex. apply count_level_none. intros cell Hc E.
   pose proof (decoded_row_cells k g Hk Hg) as Hcells. rewrite Forall_forall in Hcells.
-  destruct (Hcells cell Hc) as (l' & El & _ & Hne). subst cell. inversion El; subst. contradiction.
+  destruct (Hcells cell Hc) as (l' & El & _ & Hne). subst cell. inversion El; subst. apply (Hne Hns). exact Hex.
 Qed.
 
 (** counting a combination in a block built from a duplicate-free index list *)
@@ -229,9 +251,10 @@ Qed.
 Lemma tseq_length : length s = n.
 Proof. unfold tseq_of_run. rewrite map_length, seq_length. reflexivity. Qed.
 
-Lemma f0_factor_ok f fd : In f (fl_act fb) -> nth_error (s_factors S0) f = Some fd -> factor_ok S0 s f fd = true.
+Lemma f0_factor_ok f fd : In f (fl_act fb) -> is_derived fb f = false -> nth_error (s_factors S0) f = Some fd ->
+  factor_ok S0 s f fd = true.
 Proof.
-  intros Hact Hfd. destruct (f0_sem_factor fb HF f fd Hact Hfd) as (Hf & Hnl & Hsu & Hder).
+  intros Hact Hnd Hfd. destruct (f0_sem_factor fb HF f fd Hact Hfd) as (Hf & Hnl & Hsu & Hder). specialize (Hder Hnd).
   unfold factor_ok. rewrite tseq_row by exact Hf. rewrite decoded_row_length by assumption.
   rewrite (f0_sem_trials fb HF), Nat.eqb_refl. cbn [andb].
   apply forallb_forall. intros t Ht. apply in_seq in Ht.
@@ -241,6 +264,107 @@ Proof.
   rewrite El. unfold applies. rewrite Hder, Hnl, Hsu. rewrite Nat.div_1_r, Nat.mul_1_r, El.
   cbn [cell_eqb andb]. rewrite Nat.eqb_refl.
   replace (l <? nlevels fb f) with true by (symmetry; apply Nat.ltb_lt; exact Hl). reflexivity.
+Qed.
+
+(** * The trials of the candidate, one dictionary each *)
+Definition all_tvs : list asg := flat_map (fun rc => spec_tvs fb (fst rc) (snd rc)) (all_rounds k).
+
+Lemma cells_for_flat_map {A} (h : A -> list asg) (l : list A) g :
+  cells_for (flat_map h l) g = flat_map (fun x => cells_for (h x) g) l.
+Proof.
+  induction l as [|x t IH]; [reflexivity|]. cbn [flat_map]. unfold cells_for in *. rewrite flat_map_app, IH. reflexivity.
+Qed.
+
+Lemma decoded_row_tvs g : decoded_row fb k g = cells_for all_tvs g.
+Proof. rewrite decoded_row_rounds. unfold all_tvs. rewrite cells_for_flat_map. reflexivity. Qed.
+
+Lemma spec_tvs_length tc cp : length (spec_tvs fb tc cp) = tc.
+Proof. destruct cp as [[c0 c1] c2]. cbn [spec_tvs]. rewrite map_length, seq_length. reflexivity. Qed.
+
+Lemma all_tvs_length : length all_tvs = T.
+Proof.
+  unfold all_tvs. rewrite <- (sum_rounds k Hk). apply flat_map_length_sum. intros rc _. apply spec_tvs_length.
+Qed.
+
+(** every trial: an instance, a source combination it admits, the independent levels *)
+Lemma all_tvs_shape tv : In tv all_tvs ->
+  exists ci sc rows, tv = (ci ++ sc) ++ rows /\ In ci (f0_instances fb) /\ In sc (f0_srcs fb) /\ src_ok fb ci sc = true /\
+                     map fst tv = c ++ f0_ubs fb ++ ubi.
+Proof.
+  intros Hin. unfold all_tvs in Hin. apply in_flat_map in Hin. destruct Hin as [rc [Hrc Hin]].
+  destruct (all_rounds_ok k Hk rc Hrc) as (Hle & _ & Hok).
+  destruct (snd rc) as [[c0 c1] c2] eqn:Ecp. cbn [spec_tvs] in Hin. apply in_map_iff in Hin. destruct Hin as [t [E Ht]].
+  apply in_seq in Ht. pose proof (src_at_spec fb HF Hq (fst rc) (c0, c1, c2) t Hle Hok ltac:(lia)) as Hs. cbv beta iota zeta in Hs.
+  pose proof (spec_tv_keys fb HF Hq (fst rc) (c0, c1, c2) t Hle Hok ltac:(lia)) as Hkeys. cbv beta iota in Hkeys.
+  rewrite E in Hkeys. destruct Hs as [Hv Hs]. apply (valid_In fb HF Hq) in Hv. destruct Hv as [_ Hv].
+  pose proof Hok as (Hc0 & Hdef & _).
+  destruct (perm_of_spec fb HF Hq (fst rc) c0 Hle Hc0 Hdef) as (_ & Hpl & Hpb & _).
+  pose proof (Forall_nth' _ _ t 0%Z Hpb ltac:(lia)) as Hp. cbv beta in Hp.
+  eexists _, _, _. split; [rewrite <- E; unfold spec_tv; rewrite app_assoc; reflexivity|].
+  split; [apply nth_In; rewrite (f0_instances_length fb HF); lia|]. split; [exact Hs|]. split; [exact Hv | exact Hkeys].
+Qed.
+
+Lemma alookup_key (di : asg) g : In g (map fst di) -> alookup di g <> None.
+Proof.
+  intros Hin. unfold alookup. induction di as [|[a b] t IH]; [destruct Hin|]. cbn [find fst].
+  destruct (a =? g) eqn:E; [cbn; discriminate|]. apply IH. destruct Hin as [H | H]; [|exact H].
+  cbn [fst] in H. apply Nat.eqb_neq in E. contradiction.
+Qed.
+
+Lemma cells_for_all (tvs : list asg) g : (forall tv, In tv tvs -> alookup tv g <> None) ->
+  cells_for tvs g = map (fun tv => alookup tv g) tvs.
+Proof.
+  induction tvs as [|tv t IH]; intros H; [reflexivity|]. unfold cells_for in *. cbn [flat_map map].
+  rewrite IH by (intros x Hx; apply H; right; exact Hx).
+  specialize (H tv (or_introl eq_refl)). destruct (alookup tv g); [reflexivity | contradiction].
+Qed.
+
+(** the cell of a factor of [act_design] in a trial is the entry of the trial's dictionary *)
+Lemma cell_tv g t : In g (fl_act fb) -> t < T -> get_cell s g t = alookup (nth t all_tvs []) g.
+Proof.
+  intros Hg Ht. unfold get_cell. rewrite tseq_row by (apply (act_lt fb HF); exact Hg). rewrite decoded_row_tvs.
+  rewrite cells_for_all.
+  - rewrite (nth_indep _ None (alookup [] g)) by (rewrite map_length, all_tvs_length; exact Ht).
+    apply (map_nth (fun tv => alookup tv g)).
+  - intros tv Htv. destruct (all_tvs_shape tv Htv) as (_ & _ & _ & _ & _ & _ & _ & Hkeys). apply alookup_key.
+    rewrite Hkeys. apply (K_In fb HF Hq). exact Hg.
+Qed.
+
+Lemma alookup_prefix (ab rest : asg) g : alookup ab g <> None -> alookup (ab ++ rest) g = alookup ab g.
+Proof. intros H. rewrite alookup_app. destruct (alookup ab g); [reflexivity | contradiction]. Qed.
+
+(** a derived factor of the crossing passes its check: the source combination of every trial was admitted for the instance *)
+Lemma f0_crossed_derived_ok f fd : In f (fl_act fb) -> is_derived fb f = true -> nth_error (s_factors S0) f = Some fd ->
+  factor_ok S0 s f fd = true.
+Proof.
+  intros Hact Hdf Hfd. destruct (f0_sem_factor fb HF f fd Hact Hfd) as (Hf & Hnl & Hsu & _).
+  destruct (f0_sem_crossed_derived fb HF f fd Hact Hdf Hfd) as (Hfc & d & w & Hd & Hw & Hder & Hdeps).
+  set (dw := {| w_deps := win_deps w; w_width := 1; w_stride := 1; w_start := 0; w_table := map lv_accepts (ff_levels d) |}) in *.
+  unfold factor_ok. rewrite tseq_row by exact Hf. rewrite decoded_row_length by assumption.
+  rewrite (f0_sem_trials fb HF), Nat.eqb_refl. cbn [andb].
+  apply forallb_forall. intros t Ht. apply in_seq in Ht.
+  assert (HtT : t < T) by lia.
+  pose proof (decoded_row_cells k f Hk Hact) as Hcells.
+  pose proof (Forall_nth' _ _ t None Hcells ltac:(rewrite decoded_row_length by assumption; lia)) as [l [El [Hl _]]].
+  assert (Ec : get_cell s f t = Some l) by (unfold get_cell; rewrite tseq_row by exact Hf; exact El).
+  rewrite Ec. rewrite (applies_within fd dw Hder eq_refl eq_refl Hsu t). rewrite Hsu, Nat.div_1_r, Nat.mul_1_r, Ec, Hnl.
+  cbn [cell_eqb andb]. rewrite Nat.eqb_refl.
+  replace (l <? nlevels fb f) with true by (symmetry; apply Nat.ltb_lt; exact Hl). cbn [andb]. rewrite Hder.
+  rewrite (window_args_within fd dw eq_refl Hsu s t). cbn [w_deps dw].
+  unfold dw. rewrite (sem_accepts_predicate fb HF f d _ _ _ _ l _ Hd).
+  (* the dictionary of the trial *)
+  assert (Htv : In (nth t all_tvs []) all_tvs) by (apply nth_In; rewrite all_tvs_length; exact HtT).
+  destruct (all_tvs_shape _ Htv) as (ci & sc & rows & Etv & Hci & Hsc & Hok & _).
+  pose proof (f0_merged_ok fb HF ci sc Hci Hsc) as Hm.
+  destruct (source_allowed_spec fb HF ci sc Hm) as [_ Hspec]. apply Hspec in Hok.
+  assert (Hfcd : In f (f0_cd fb)) by (unfold f0_cd; apply filter_In; split; assumption).
+  destruct (Hm f Hfcd) as [[lf Hlf] (w0 & Hw0 & Hdl)].
+  assert (Ew0 : w0 = w) by (unfold window_of in Hw0; rewrite Hd, Hw in Hw0; inversion Hw0; reflexivity). subst w0.
+  assert (Elf : lf = l).
+  { pose proof (cell_tv f t Hact HtT) as H. rewrite Ec, Etv in H. rewrite alookup_prefix in H by (rewrite Hlf; discriminate). congruence. }
+  subst lf. specialize (Hok f l w Hfcd Hlf Hw0). rewrite <- Hok. f_equal.
+  apply map_ext_in. intros x Hx. destruct (Hdeps x Hx) as [Hxa _]. rewrite (cell_tv x t Hxa HtT), Etv.
+  rewrite alookup_prefix; [reflexivity|]. destruct (Hdl x Hx) as [a Ha]. rewrite Ha. discriminate.
 Qed.
 
 (** * The crossing *)
@@ -473,8 +597,13 @@ Proof.
         assert (i < length (seq 0 (length (s_factors S0)))) by (apply nth_error_Some; congruence).
         rewrite seq_length in H. rewrite seq_nth in H1' by exact H. lia. }
       subst i. destruct (in_dec Nat.eq_dec f (fl_act fb)) as [Ha | Hna].
-      - destruct (f0_sem_factor fb HF f fd Ha H2) as (_ & _ & _ & Hder).
-        rewrite (factor_ok_ext_basic S0 fs s f fd Hder (fill_act_row f Ha)). apply f0_factor_ok; assumption.
+      - destruct (is_derived fb f) eqn:Edf.
+        + rewrite (factor_ok_ext S0 fs s f fd (fill_act_row f Ha)); [apply f0_crossed_derived_ok; assumption|].
+          intros w0 x Hw0 Hx. apply fill_act_row.
+          destruct (f0_sem_crossed_derived fb HF f fd Ha Edf H2) as (_ & d & w & _ & _ & Hder & Hdeps).
+          rewrite Hder in Hw0. inversion Hw0; subst w0. cbn [w_deps] in Hx. apply (Hdeps x Hx).
+        + destruct (f0_sem_factor fb HF f fd Ha H2) as (_ & _ & _ & Hder). specialize (Hder Edf).
+          rewrite (factor_ok_ext_basic S0 fs s f fd Hder (fill_act_row f Ha)). apply f0_factor_ok; assumption.
       - apply f0_implied_ok; assumption. }
   cbn [andb]. rewrite (f0_sem_crossings fb HF). cbn [forallb].
   rewrite (crossing_ok_ext S0 fs s (f0_crossing fb)) by (intros f t Hf; apply fill_act_cell; apply (f0_cact_main fb HF); exact Hf).
